@@ -133,6 +133,8 @@ func init() {
 		[]Stage{bfs("lsm", 5, 40, prm("oracle", "c13", "nvk", 1, "keys", 1)), bfs("lsm", 5, 40, prm("oracle", "c13", "nvk", 2, "keys", 1)),
 			// seeds with versions on both sides of the watermark (the version budget must count only versions at or below it)
 			bfs("lsm", 3, 40, prm("oracle", "c13", "nvk", 2, "keys", 1), seq("Sa Sa T"), seq("Sa Sa Sa T Sa"), seq("Sa F Sa F T"), seq("Sa Ea Sa T Sa")),
+			// merge-operator entries (values in the value log, rewritten by value-log GC) are never dropped by a compaction: the fold over all adds stays complete
+			bfs("merge", 7, 40, prm("l0_tables", 1, "keys", 1, "gc", true, "big", true, "vlog_max_entries", 1, "ops", "MB F G C0")),
 			// normal mode: the watermark is the read watermark, which must not pass a read transaction that is still open
 			bfs("lsm", 5, 30, prm("oracle", "c13", "mode", "normal", "nvk", 1, "keys", 1, "l0_tables", 1, "ops", "Sa Da F C0 O X")),
 			// the watermark a compaction uses must be the real one even while a value-log GC rewrite is in flight
@@ -459,8 +461,10 @@ func init() {
 
 	planTable["C31"] = lsmPlan("Merge operator with string concatenation (order- and loss-revealing) on the real DB: Add, the operator's periodic merge compaction as an explicit transition, flushes, every picker compaction, close/re-open with a new operator, optionally writes to a neighbouring key; after every transition MergeOperator.Get must equal the concatenation of all added values in Add order, and ErrKeyNotFound before the first Add.",
 		stateRule,
-		[]Stage{bfs("merge", 9, 70, prm("l0_tables", 1, "keys", 1))},
-		[]Stage{bfs("merge", 8, 900, prm("l0_tables", 1, "keys", 1)), bfs("merge", 7, 600, prm("l0_tables", 2, "keys", 1, "other", true, "nvk", 2))})
+		[]Stage{bfs("merge", 9, 70, prm("l0_tables", 1, "keys", 1)),
+			// added values in the value log, value-log GC rewriting them (the rewritten entry must stay a merge entry)
+			bfs("merge", 8, 50, prm("l0_tables", 1, "keys", 1, "gc", true, "big", true, "vlog_max_entries", 1, "ops", "MB F G C0"))},
+		[]Stage{bfs("merge", 8, 900, prm("l0_tables", 1, "keys", 1)), bfs("merge", 7, 600, prm("l0_tables", 2, "keys", 1, "other", true, "nvk", 2)), bfs("merge", 9, 600, prm("l0_tables", 1, "keys", 1, "gc", true, "big", true, "vlog_max_entries", 1, "ops", "MA MB MC F G C0 R"))})
 
 	planTable["C32"] = func(q bool) *Plan {
 		p := &Plan{Level: "model_checking", Engine: "E-enum + E-sched",
